@@ -154,7 +154,7 @@ func init() {
 		ID:          "C20",
 		Explanation: "RN: the option-carrying element kinds (9) and the containment edges between them (12) are computed from the descriptorpb Go types; the options interpreter's traversal (call tree of interpretFileOptions) must follow every containment edge and instantiate its per-element handler for every options kind, and so must the linker's option-name resolution (resolveReferences + package walk) — no element kind can keep uninterpreted or unresolved options after success. RNC: every integer narrowing or sign-changing conversion in the option value coercion functions is dominated by range guards that make it value-preserving (branch-sensitive dataflow over comparisons with constants). RCF: every case-folding operation in the stable compiler is in a reviewed table (Protobuf is case-sensitive).",
 		NotDecided:  "value conversion beyond range preservation, target checks, rejection parity with protoc",
-		Rules:       []func(*World){rnInterpreter, rnLinkerResolve, rncNarrowing, rnc2SingleRounding, rcfCaseFolding},
+		Rules:       []func(*World){rnInterpreter, rnLinkerResolve, rncNarrowing, rnc2SingleRounding, rcfCaseFolding, ro3InPlaceFilterOnOwnedSlices},
 	})
 	register(&Property{
 		ID:          "C22",
@@ -172,7 +172,7 @@ func init() {
 		ID:          "C23",
 		Explanation: "RX: sourceCodeInfo.locs is appended only by the three newLoc* primitives, each appending exactly one location (unconditional, no early return) whose Path is a copy of the path parameter and whose Span is makeSpan of the node's start/end; extraComments is read only in newLoc (both arms produce one location for the same path) and maybeDonate (creates none); extraOptionLocs only gates generateSourceInfoForOptionChildren in generateSourceCodeInfoForOption. RX4: in every `append(path, tags.T, idx)` the index variable serves a single tag (no index-space confusion) and is incremented after use in the same block.",
 		NotDecided:  "that each tag sequence is a valid path of the descriptor; span ranges; comment text",
-		Rules:       []func(*World){rxSourceInfo, rx5PathNeverRewritten, rx6CommentTextFromSource, rx7ReservedCommentsNotStolen},
+		Rules:       []func(*World){rxSourceInfo, rx5PathNeverRewritten, rx6CommentTextFromSource, rx7ReservedCommentsNotStolen, rx8PathAliasing},
 	})
 	register(&Property{
 		ID:          "C13",
@@ -208,6 +208,6 @@ func init() {
 		ID:          "C11",
 		Explanation: "RR: productions are read from parser/proto.y and the compiled actions from the `switch protont` of parser/proto.y.go; symbol counts are cross-checked between both files; for every production without the `error` token the compiled action references all of its right-hand-side values protoDollar[1..K]. RR2: every exported ast.New*Node constructor of a composite node places each Node-typed parameter (or each element of a slice parameter) among the node's children. Together: every token the lexer hands to the parser is reachable by ast.Walk.",
 		NotDecided:  "that the lexer's items tile the input (whitespace/comment spans are arithmetic), BOM handling, correctness of leading-whitespace offsets, order of children",
-		Rules:       []func(*World){rrGrammar, rr2Constructors, rr3SameBuffer, rr4OwnedSourceBytes, rr5PairedAccumulators},
+		Rules:       []func(*World){rrGrammar, rr2Constructors, rr3SameBuffer, rr4OwnedSourceBytes, rr5PairedAccumulators, rr6TriviaNeverDropped, rx9ASTNotMutated},
 	})
 }
